@@ -88,12 +88,15 @@ def build(case):
     onsets, heds = [], []
     eff = {}
     idx = 0
+    prev_texts = []
     for r, row in enumerate(rows):
         texts = []
-        for kind, name, delay in row["groups"]:
-            texts.append(group_text(kind, name, idx, delay or None))
+        for gi, (kind, name, delay) in enumerate(row["groups"]):
+            # a twin row repeats the row before it character by character
+            texts.append(prev_texts[gi] if row.get("twin") else group_text(kind, name, idx, delay or None))
             eff.setdefault(round(row["onset"] + (delay or 0), 6), []).append((r, len(texts), kind, name))
             idx += 1
+        prev_texts = texts
         onsets.append(repr(float(row["onset"])))
         heds.append("Zzunknowntag" if row.get("noise") else (", ".join(texts) if texts else "n/a"))
     times = sorted(eff)
@@ -219,6 +222,11 @@ def random_case(rng):
             src = min(src, t)
             delayed_rows.append(dict(onset=src, groups=[[k, nm, t - src] for k, nm in chunk]))
     allrows = sorted(rows + delayed_rows, key=lambda r: r["onset"])
+    if rng.random() < 0.2:
+        # the same row written twice (same onset, same text): every marker in it is used once more at that time
+        k = rng.randrange(len(allrows))
+        if allrows[k]["groups"] and not allrows[k].get("noise"):
+            allrows.insert(k + 1, dict(onset=allrows[k]["onset"], groups=[list(g) for g in allrows[k]["groups"]], twin=True))
     if rng.random() < 0.3:
         # rows that fail their own checks (an unknown tag) and hold no marker: skipped by the temporal pass, they must
         # not disturb the bookkeeping of the other rows
